@@ -106,6 +106,15 @@ CLAIMS["C05"] = dict(
     note="closed forms for groups containing a junction or with ordinary outflows leaving the group are covered by the one-step theorems + correspondence, not by a closed form.",
     design="8.C05")
 
+CLAIMS["C10"] = dict(
+    technique="Lean 4 theorems about restarting the engine model from a saved state (semigroup law of Engine.runFrom/process, saved-table round trip) + correspondence over real restart histories (mode E)",
+    text="Proof: runFrom_drop / restart_continues(_wf) / restart_chain(_wf): restarting process from the state at index k reproduces the tail of the trajectory (stocks row by row, flows) for every k, any chain of restarts, "
+         "with flushAll proved to be the identity on empty junctions and junctions proved empty after start-up; apply_fromResult / row_structure_kept / restart_from_saved(_wf) through the saved table; table_roundtrip for the spreadsheet layout; "
+         "kernel-checked witnesses of the two former defects. Real runs are restarted with ParameterSet.set_initialization at every grid year, in chains, on models with junctions, duration groups, transfers and programs, "
+         "and compared at every index >= Y; the spreadsheet path calibration_spreadsheet -> load_calibration is compared to 1e-15.",
+    note="the parameter pipeline is an abstract function of (absolute index, state) in the closed-loop theorems; hidden state of the real pipeline is what the mode E comparison looks for; xlsx 16-digit precision observed.",
+    design="8.C10")
+
 NA_DEFAULT = "not yet claimed: model, theorems and correspondence under construction (see DESIGN.md section 8)"
 NA = {}
 
